@@ -263,7 +263,7 @@ func (i *ICMPv4) NextLayerType() gopacket.LayerType {
 }
 
 func (i *ICMPv4) VerifyChecksum() (error, gopacket.ChecksumVerificationResult) {
-	bytes := append(i.Contents, i.Payload...)
+	bytes := headerAndPayload(i.Contents, i.Payload)
 
 	existing := i.Checksum
 	verification := gopacket.ComputeChecksum(bytes, 0)
